@@ -98,6 +98,81 @@ func readProfile(data []byte) (o iccObs) {
 	return iccObs{status: "ok", p: p}
 }
 
+// The profile reader takes any io.Reader: the same bytes must give the same profile whether they come
+// from the start of a bytes.Reader, from a reader positioned inside a larger object (a profile embedded
+// in a file already partly consumed), a SectionReader, a strings.Reader, a Buffer, an *os.File, or
+// through bufio.
+var iccSourceCounter int
+
+func checkICCSources(c *ctx, prop string, data []byte) {
+	iccSourceCounter++
+	if iccSourceCounter%4 != 0 {
+		return
+	}
+	state := func(r interface {
+		io.Reader
+		io.ByteReader
+	}) (s string) {
+		defer func() {
+			if rec := recover(); rec != nil {
+				s = "panic"
+			}
+		}()
+		p, err := icc.NewProfileReader(r).ReadProfile()
+		if err != nil || p == nil {
+			return "err"
+		}
+		return "ok " + headerString(&p.Header, data)
+	}
+	plain := state(bytes.NewReader(data))
+	pre := []byte("a container's bytes before the profile: \x00\x00\x02\x0cacsp and more")
+	post := []byte("and after it")
+	whole := append(append(append([]byte{}, pre...), data...), post...)
+	br := bytes.NewReader(append(append([]byte{}, pre...), data...))
+	br.Seek(int64(len(pre)), io.SeekStart)
+	sr := strings.NewReader(string(pre) + string(data))
+	sr.Seek(int64(len(pre)), io.SeekStart)
+	type brd = interface {
+		io.Reader
+		io.ByteReader
+	}
+	kinds := []struct {
+		name string
+		r    brd
+	}{
+		{"bytes.Reader positioned after a prefix", br},
+		{"strings.Reader positioned after a prefix", sr},
+		{"bufio.Reader over an io.SectionReader inside a larger object", bufio.NewReader(io.NewSectionReader(bytes.NewReader(whole), int64(len(pre)), int64(len(data))))},
+		{"bytes.Buffer", bytes.NewBuffer(append([]byte{}, data...))},
+		{"bufio.Reader over a positioned bytes.Reader", func() brd {
+			b := bytes.NewReader(append(append([]byte{}, pre...), data...))
+			b.Seek(int64(len(pre)), io.SeekStart)
+			return bufio.NewReaderSize(b, 16)
+		}()},
+	}
+	if iccSourceCounter%64 == 0 {
+		if f, err := os.CreateTemp(c.out, "icc-src-*"); err == nil {
+			f.Write(whole[:len(pre)+len(data)])
+			f.Seek(int64(len(pre)), io.SeekStart)
+			defer os.Remove(f.Name())
+			defer f.Close()
+			kinds = append(kinds, struct {
+				name string
+				r    brd
+			}{"bufio.Reader over an *os.File positioned after a prefix", bufio.NewReader(f)})
+		}
+	}
+	for _, k := range kinds {
+		got := state(k.r)
+		c.res.count("icc-source-kind", k.name+string(data), true)
+		if got != plain {
+			c.res.fail(Failure{Class: prop + ":source-kind", Desc: "ReadProfile gives a different result from a " + k.name + " than from the same bytes at the start of a bytes.Reader",
+				Input: map[string]interface{}{"profile": shortHex(data), "source": k.name, "prefix_bytes": len(pre)}, Got: short(got, 200), Want: short(plain, 200)})
+			return
+		}
+	}
+}
+
 func implHeader(data []byte) string {
 	o := readProfile(data)
 	if o.status != "ok" {
@@ -151,6 +226,7 @@ var c16Fields = []string{"size", "cmm", "major", "minorrev", "class", "space", "
 
 func c16Check(c *ctx, kind string, hdr []byte, tail []byte) {
 	data := zeroTagProfile(hdr, tail)
+	checkICCSources(c, "C16", data)
 	impl := implHeader(data)
 	hasSig := bytes.Equal(hdr[36:40], []byte("acsp"))
 	c.res.count(kind, hx(hdr), true)
@@ -477,7 +553,38 @@ func init() {
 							ascii[i] = byte(1 + rng.Intn(255))
 						}
 					}
-					tags[pos] = genTag{0x64657363, descV2(ascii, randBytes(rng, pick(rng, 0, 0, 11, 78)))}
+					// what follows the ASCII text: nothing, junk, or the full textDescriptionType tail - a Unicode
+					// localisation (absent, a repetition of the ASCII text, or a different, localised name) and the
+					// ScriptCode part; whatever is there, the description is the ASCII text
+					extra := randBytes(rng, pick(rng, 0, 0, 11, 78))
+					if t := rng.Intn(5); t >= 2 {
+						var uni []uint16
+						switch t {
+						case 3:
+							for _, ch := range ascii {
+								uni = append(uni, uint16(ch))
+							}
+						case 4:
+							for k := 0; k < 1+rng.Intn(30); k++ {
+								uni = append(uni, []uint16{0xc9, 0x63, 0x72, 0x61, 0x6e, 0x6a19, 0x6e96, 0x30e2, 0x20, 0xe9}[rng.Intn(10)])
+							}
+						}
+						extra = append([]byte("enUS")[:0:0], byte('a'+rng.Intn(26)), byte('a'+rng.Intn(26)), 0, 0)
+						cnt := 0
+						if len(uni) > 0 {
+							cnt = len(uni) + 1
+						}
+						extra = append(extra, be32(uint32(cnt))...)
+						for _, u := range uni {
+							extra = append(extra, byte(u>>8), byte(u))
+						}
+						if cnt > 0 {
+							extra = append(extra, 0, 0)
+						}
+						extra = append(extra, 0, 0, 0) // ScriptCode code and count
+						extra = append(extra, make([]byte, 67)...)
+					}
+					tags[pos] = genTag{0x64657363, descV2(ascii, extra)}
 					want = [][]byte{ascii}
 					kind = "desc-v2"
 				} else {
@@ -549,6 +656,7 @@ func init() {
 		if st := writeXCheck(c.out+"/Gen", "From Coq Require Import List ZArith NArith. From Coq Require Import Strings.Byte. Import ListNotations.\nFrom PrismV Require Import IO.IO IO.Parse Icc.Icc."); st != nil {
 			c.res.GenStages = append(c.res.GenStages, st)
 		}
+		checkHeldProfiles(c, "C17")
 		// real profiles
 		files := []string{"test-profiles/display-p3-v4-with-v2-desc.icc"}
 		for _, f := range files {
@@ -615,7 +723,58 @@ func implDescVia(data []byte, mk func([]byte) *bufio.Reader) (s string) {
 	return "ok " + hx([]byte(d))
 }
 
+// Profiles are values: what was read stays what it was after other profiles have been read (a reader that
+// parks tag data or header bytes in storage it reuses would change earlier results under the caller's feet).
+type heldProf struct {
+	data  []byte
+	p     *icc.Profile
+	first string
+	desc  bool // the description is determined (one admissible string): with several records of equal rank any may be returned
+}
+
+var heldProfiles []heldProf
+
+func profState(p *icc.Profile, desc bool) (s string) {
+	defer func() {
+		if r := recover(); r != nil {
+			s = "panic"
+		}
+	}()
+	d, err := p.Description()
+	if !desc {
+		d = ""
+	}
+	return fmt.Sprintf("%+v|%q|%v", p.Header, d, err != nil)
+}
+
+func holdProfile(data []byte, desc bool) {
+	if len(heldProfiles) >= 300 {
+		return
+	}
+	defer func() { recover() }()
+	p, err := icc.NewProfileReader(bytes.NewReader(data)).ReadProfile()
+	if err != nil || p == nil {
+		return
+	}
+	heldProfiles = append(heldProfiles, heldProf{data, p, profState(p, desc), desc})
+}
+
+func checkHeldProfiles(c *ctx, prop string) {
+	for i, h := range heldProfiles {
+		again := profState(h.p, h.desc)
+		c.res.count("held-profile", string(h.data), true)
+		if again != h.first {
+			c.res.fail(Failure{Class: prop + ":held-profile", Desc: fmt.Sprintf("a profile's header / description reads differently after %d other profiles were read than it did when it was returned", len(heldProfiles)-1-i),
+				Input: map[string]interface{}{"profile": shortHex(h.data), "history": "read this profile, keep it, read the other profiles, ask it again"}, Got: short(again, 300), Want: short(h.first, 300)})
+			break
+		}
+	}
+	heldProfiles = nil
+}
+
 func c17Case(c *ctx, kind string, data []byte, want [][]byte, ntags int) {
+	holdProfile(data, len(want) <= 1)
+	checkICCSources(c, "C17", data)
 	impl := implDesc(data)
 	for name, mk := range map[string]func([]byte) *bufio.Reader{
 		"bufio.Reader": func(b []byte) *bufio.Reader { return bufio.NewReader(bytes.NewReader(b)) },
